@@ -21,6 +21,8 @@ func Run(m *mon.M) {
 	m.Require("binary.overlapping", 1000)
 	m.Require("find.nonempty", 200)
 	m.Require("cellindex.ranges", 1000)
+	m.Require("cellindex.reused_ranges", 1000)
+	m.Require("find.many_unions", 200)
 	m.Stream("normalize", m.N(60000, 5000000), normalize)
 	m.Stream("binary", m.N(60000, 5000000), binary)
 	m.Stream("range", m.N(60000, 5000000), fromRange)
@@ -278,6 +280,10 @@ func keyOf(ix []int) string {
 func find(c *mon.Case) {
 	r := c.R
 	n := 2 + r.Intn(4)
+	if r.Intn(5) == 0 {
+		n = 10 + r.Intn(16) // two-digit indices
+		c.Count("find.many_unions", 1)
+	}
 	cus := make([]s2.CellUnion, n)
 	var models []ref.LeafSet
 	base := gen.CellMultiset(r, 12)
@@ -410,6 +416,12 @@ func cellIndex(c *mon.Case) {
 	if c.I < 2 {
 		c.Sample(det())
 	}
+	// one contents iterator reused over all ranges: mode 1 calls Clear() before every range (each range must
+	// then yield exactly its contents), mode 2 never clears (pairs already reported for an earlier range may
+	// be suppressed, nothing else may be missing or added)
+	reuseMode := r.Intn(3)
+	reused := s2.NewCellIndexContentsIterator(&idx)
+	reported := map[pair]bool{}
 	nr := 0
 	for it.Begin(); !it.Done(); it.Next() {
 		nr++
@@ -455,6 +467,38 @@ func cellIndex(c *mon.Case) {
 		}
 		if !same {
 			c.Violation("CellIndex/contents/wrong-answer", fmt.Sprintf("range [%x,%x): contents iterator yields %d distinct pairs, %d cover it", uint64(s), uint64(l), len(got), len(want)), det())
+		}
+		if reuseMode > 0 {
+			if reuseMode == 1 {
+				reused.Clear()
+			}
+			got2 := map[pair]int{}
+			k := 0
+			for reused.StartUnion(it); !reused.Done(); reused.Next() {
+				got2[pair{reused.CellID(), reused.Label()}]++
+				if k++; k > len(pairs)+5 {
+					c.Violation("CellIndex/contents-iterator/reused/does-not-terminate/wrong-answer", "reused contents iterator yields more pairs than the index holds", det())
+					return
+				}
+			}
+			c.Count("cellindex.reused_ranges", 1)
+			for p := range got2 {
+				if want[p] == 0 {
+					c.Violation("CellIndex/contents/reused/reports-pair-not-covering-range/wrong-answer", fmt.Sprintf("range [%x,%x): reused contents iterator (mode %d) reports %s:%d which does not cover the range", uint64(s), uint64(l), reuseMode, p.id.ToToken(), p.label), det())
+				}
+			}
+			for p := range want {
+				if got2[p] == 0 && !(reuseMode == 2 && reported[p]) {
+					what := "after Clear()"
+					if reuseMode == 2 {
+						what = "without Clear(), and the pair was not reported for an earlier range"
+					}
+					c.Violation("CellIndex/contents/reused/missing-pair/wrong-answer", fmt.Sprintf("range [%x,%x): reused contents iterator misses %s:%d (%s)", uint64(s), uint64(l), p.id.ToToken(), p.label, what), det())
+				}
+			}
+			for p := range got2 {
+				reported[p] = true
+			}
 		}
 		c.Count("cellindex.ranges", 1)
 	}
